@@ -270,7 +270,8 @@ def translate_range(ctx, fam, cls, meth, mode, localize=False):
     def cmp_any(op, l, r):
         a, b = num(l), num(r)
         if a is not None and b is not None:
-            return {'eq': '(ext_eqb %s %s)', 'ne': '(negb (ext_eqb %s %s))'}[op] % (a, b)
+            return {'lt': '(ext_ltb %s %s)', 'le': '(ext_leb %s %s)', 'gt': '(ext_ltb %s %s)', 'ge': '(ext_leb %s %s)',
+                    'eq': '(ext_eqb %s %s)', 'ne': '(negb (ext_eqb %s %s))'}[op] % ((b, a) if op in ('gt', 'ge') else (a, b))
         return cmp(op, l, r)
 
     def contains(e, c):
